@@ -366,6 +366,12 @@ var reflectKinds = map[string]reflect.Kind{
 	"float32": reflect.Float32, "float64": reflect.Float64, "bool": reflect.Bool, "string": reflect.String,
 }
 
+var zeroOfKind = map[string]any{
+	"int16": int16(0), "int32": int32(0), "int64": int64(0), "int": int(0),
+	"uint16": uint16(0), "uint32": uint32(0), "uint64": uint64(0), "uint": uint(0),
+	"float32": float32(0), "float64": float64(0), "bool": false, "string": "",
+}
+
 type number interface {
 	~int | ~int16 | ~int32 | ~int64 | ~uint | ~uint16 | ~uint32 | ~uint64 | ~float32 | ~float64
 }
@@ -1431,7 +1437,12 @@ func (s *storeImpl) exec(toks []string) (out string) {
 			}
 		}
 		_, existed := c.kinds[rest[1]]
-		if err := c.c.CreateColumn(rest[1], col); err != nil {
+		create := func() error { return c.c.CreateColumn(rest[1], col) }
+		if z, byKind := zeroOfKind[rest[2]]; byKind && merge == "" && !apiPinned && (fnv64(rest[1])+uint64(len(c.kinds)))%4 == 3 {
+			// the third way to the same column: CreateColumnsOf, from a sample value
+			create = func() error { return c.c.CreateColumnsOf(map[string]any{rest[1]: z}) }
+		}
+		if err := create(); err != nil {
 			if !existed && rest[2] == "key" {
 				c.kinds[rest[1]] = rest[2] // registered, but refused as a second key
 			}
